@@ -21,6 +21,11 @@ type oracle struct {
 	h   *rt.H
 	r   *ipamkv.Runner
 	seq bool // the case runs one operation at a time (no concurrency)
+	// how each currently-confirmed affinity (host, block) got confirmed: "cab" = by
+	// claimAffineBlock (the thread created the block, or found it existing after its own
+	// failed create), "gbfa" = by getBlockFromAffinity (unconfirmed affinity of an existing
+	// block: pending, block rewrite, confirm)
+	confKind map[[2]int]string
 }
 
 func (o *oracle) fail(sig, desc string, info map[string]any) {
@@ -29,8 +34,43 @@ func (o *oracle) fail(sig, desc string, info map[string]any) {
 		// sequential fault-free history is a different (unknown) finding
 		sig += "-seq"
 	}
+	// The recorded race is ReleaseAffinity vs claimAffineBlock of the same host; the same symptom
+	// with the stale confirmation made by getBlockFromAffinity is a different (unknown) finding.
+	if k, ok := info["confirmed_by"].(string); ok && k != "" {
+		sig += "-" + k
+	}
 	info["replay_ops"] = append([]string(nil), o.r.Cmds...)
 	o.h.OracleFail(sig, desc, info)
+}
+
+// confirmKindOf classifies the confirm write `st` of thread st.TID from the thread's own
+// preceding backend calls on the block.
+func (o *oracle) confirmKindOf(r *ipamkv.Runner, st *ipamkv.Step, blockPath string) string {
+	log := r.Sc.Log
+	sawGet := false
+	for i := len(log) - 1; i >= 0; i-- {
+		p := log[i]
+		if p == st || p.TID != st.TID || p.Path != blockPath {
+			continue
+		}
+		switch p.Verb {
+		case ipamkv.VCreate:
+			return "cab"
+		case ipamkv.VUpdate:
+			if sawGet {
+				return "gbfa"
+			}
+			return "gbfa"
+		case ipamkv.VGet:
+			if sawGet {
+				return "gbfa"
+			}
+			sawGet = true
+		default:
+			return "gbfa"
+		}
+	}
+	return "gbfa"
 }
 
 func (o *oracle) onStep(r *ipamkv.Runner, st *ipamkv.Step, ctx *ipamkv.ThreadCtx) {
@@ -38,6 +78,19 @@ func (o *oracle) onStep(r *ipamkv.Runner, st *ipamkv.Step, ctx *ipamkv.ThreadCtx
 		return
 	}
 	e := r.Env
+	if ak, ok := st.Key.(model.BlockAffinityKey); ok {
+		b, okb := e.BlockOf[model.IPNetFromPrefix(ak.CIDR).String()]
+		x := e.HostID(ak.Host)
+		if okb && x >= 0 {
+			if st.Eff.After != nil && strings.Contains(e.AbsAffOf(*st.Eff.After), "confirmed") {
+				bp, _ := model.KeyToDefaultPath(model.BlockKey{CIDR: ak.CIDR})
+				o.confKind[[2]int{x, b}] = o.confirmKindOf(r, st, bp)
+				o.h.Count("confirm:" + o.confKind[[2]int{x, b}])
+			} else {
+				delete(o.confKind, [2]int{x, b})
+			}
+		}
+	}
 	w := e.World()
 	// (1) a block is confirmed as affine to at most one host, and a confirmed affinity
 	// matches the block's recorded affinity
@@ -50,14 +103,20 @@ func (o *oracle) onStep(r *ipamkv.Runner, st *ipamkv.Step, ctx *ipamkv.ThreadCtx
 	for b, hosts := range conf {
 		sort.Ints(hosts)
 		if len(hosts) > 1 {
-			o.fail("two-confirmed", "a block is confirmed as affine to two hosts", map[string]any{"block": b, "hosts": hosts})
+			kind := "cab"
+			for _, x := range hosts {
+				if blk, ok := w.Blocks[b]; (!ok || blk.Aff != x) && o.confKind[[2]int{x, b}] == "gbfa" {
+					kind = "gbfa" // the stale one of the two was confirmed by getBlockFromAffinity
+				}
+			}
+			o.fail("two-confirmed", "a block is confirmed as affine to two hosts", map[string]any{"block": b, "hosts": hosts, "confirmed_by": kind})
 		}
 		for _, x := range hosts {
 			blk, ok := w.Blocks[b]
 			if !ok {
-				o.fail("confirmed-no-block", "a confirmed affinity exists for a block that does not exist", map[string]any{"block": b, "host": x})
+				o.fail("confirmed-no-block", "a confirmed affinity exists for a block that does not exist", map[string]any{"block": b, "host": x, "confirmed_by": o.confKind[[2]int{x, b}]})
 			} else if blk.Aff != x {
-				o.fail("confirmed-mismatch", "a confirmed affinity does not match the block's recorded affinity", map[string]any{"block": b, "host": x, "block_affinity": blk.Aff})
+				o.fail("confirmed-mismatch", "a confirmed affinity does not match the block's recorded affinity", map[string]any{"block": b, "host": x, "block_affinity": blk.Aff, "confirmed_by": o.confKind[[2]int{x, b}]})
 			}
 		}
 	}
@@ -115,6 +174,10 @@ type gen struct {
 	last  int
 	fault bool
 	seq   bool
+	// unconf: the case starts with a claim of host 0 on block 0 that crashes right after creating
+	// the block (pending affinity + existing block), then races ReleaseAffinity(host 0, block 0)
+	// against AutoAssign / claims of host 0, then lets the other host claim
+	unconf bool
 }
 
 func (g *gen) newLine() string {
@@ -172,10 +235,78 @@ func (g *gen) pickFault() string {
 	return ipamkv.FNone
 }
 
+// drive lets the ready threads run under the seeded scheduler (no faults).
+func (g *gen) drive() {
+	h, r := g.h, g.r
+	for steps := 0; steps < 600; steps++ {
+		rd := r.Ready()
+		if len(rd) == 0 {
+			break
+		}
+		tid := rd[h.Intn(len(rd))]
+		for _, x := range rd {
+			if x == g.last && h.Chance(0.5) {
+				tid = x
+			}
+		}
+		g.last = tid
+		r.Exec(fmt.Sprintf("step %d none", tid))
+	}
+	r.Exec("quiesce")
+}
+
+func (g *gen) runUnconf() {
+	h, r := g.h, g.r
+	r.Exec(fmt.Sprintf("new hosts=2 handles=2 pools=%s cool=0 strict=%d maxblk=0", rt.Pick(h, []string{"10.0.0.0/30/31", "10.0.0.0/29/30"}), h.Intn(2)))
+	// a claim that crashes between creating the block and confirming the affinity
+	g.tid = 1
+	r.Exec("begin 1 claim host=0 b=0")
+	for i := 0; i < 20; i++ {
+		c := r.Sc.Peek(1)
+		if c == nil {
+			break
+		}
+		if _, isBlk := c.Key.(model.BlockKey); isBlk && c.Verb == ipamkv.VCreate {
+			r.Exec("step 1 crashafter")
+			break
+		}
+		r.Exec("step 1 none")
+	}
+	r.Exec("quiesce")
+	rounds := 1 + h.Intn(3)
+	for i := 0; i < rounds; i++ {
+		n := 2 + h.Intn(2)
+		for j := 0; j < n; j++ {
+			g.tid++
+			switch k := h.Intn(10); {
+			case k < 4:
+				r.Exec(fmt.Sprintf("begin %d releaseaff host=0 b=0 empty=%d", g.tid, h.Intn(2)))
+			case k < 8:
+				r.Exec(fmt.Sprintf("begin %d autoassign host=0 h=%d n=1", g.tid, 1+h.Intn(2)))
+			case k < 9:
+				r.Exec(fmt.Sprintf("begin %d claim host=0 b=0", g.tid))
+			default:
+				r.Exec(fmt.Sprintf("begin %d relhostaff host=0 empty=%d", g.tid, h.Intn(2)))
+			}
+		}
+		g.drive()
+		if h.Chance(0.3) {
+			r.Exec("age")
+		}
+	}
+	g.tid++
+	r.Exec(fmt.Sprintf("begin %d claim host=1 b=0", g.tid))
+	g.drive()
+}
+
 func (g *gen) run() {
 	h, r := g.h, g.r
 	g.tid, g.last = 0, -1
 	g.fault = h.Intn(2) == 0 && !g.seq
+	if g.unconf {
+		g.runUnconf()
+		return
+	}
 	r.Exec(g.newLine())
 	rounds := 2 + h.Intn(4)
 	if g.seq {
@@ -220,6 +351,7 @@ func main() {
 	mk := func() *ipamkv.Runner {
 		r := ipamkv.NewRunner(h)
 		o.r = r
+		o.confKind = map[[2]int]string{}
 		r.OnStep = o.onStep
 		return r
 	}
@@ -239,6 +371,7 @@ func main() {
 		h.Case("gen")
 		r := mk()
 		g := &gen{h: h, r: r, seq: h.Intn(4) == 0}
+		g.unconf = !g.seq && h.Intn(4) == 0
 		o.seq = g.seq
 		g.run()
 		inter := 0
